@@ -437,6 +437,26 @@ let cfg_resolve args =
        | OutOfFuel -> "OUT-OF-FUEL")
   | _ -> "BAD-ARGS"
 
+(* lifecycle <class> <states `,`-separated>: class H | R | C | F1 | F0 | X<c><s> *)
+let cstate_of = function
+  | "ClientConnected" -> ClientConnected | "ClientRequested" -> ClientRequested | "ServerConnecting" -> ServerConnecting
+  | "Connected" -> Connected | "ServerShutdown" -> ServerShutdown | "ClientShutdown" -> ClientShutdown
+  | "Terminated" -> Terminated | "ErrorOccured" -> ErrorOccured | _ -> failwith "state"
+let cstate_name = function
+  | ClientConnected -> "ClientConnected" | ClientRequested -> "ClientRequested" | ServerConnecting -> "ServerConnecting"
+  | Connected -> "Connected" | ServerShutdown -> "ServerShutdown" | ClientShutdown -> "ClientShutdown"
+  | Terminated -> "Terminated" | ErrorOccured -> "ErrorOccured"
+let lifecycle args =
+  match args with
+  | [ cls; sts ] ->
+      let states = if sts = "" then [] else List.map cstate_of (String.split_on_char ',' sts) in
+      let oc = match cls with
+        | "H" -> HandshakeFailed | "R" -> Refused | "C" -> ConnectFailed | "F1" -> Finished true | "F0" -> Finished false
+        | _ -> RelayFailed (cls.[1] = '1', cls.[2] = '1') in
+      let expected = x_state_log oc in
+      Printf.sprintf "OK ok=%b same=%b expected=%s" (x_lifecycle_ok states) (states = expected) (String.concat "," (List.map cstate_name expected))
+  | _ -> "BAD-ARGS"
+
 (* ---- milu evaluator ------------------------------------------------------------------ *)
 
 exception Opaque
@@ -666,6 +686,7 @@ let run_line ovf line =
         | "reload_seq" -> reload_seq args
         | "milu_parse" -> milu_parse args
         | "milu_rt" -> milu_rt args
+        | "lifecycle" -> lifecycle args
         | "cfg_table" -> cfg_table args
         | "cfg_resolve" -> cfg_resolve args
         | "idle_check" -> idle_check args
